@@ -57,6 +57,8 @@ class WeaverModel:
         for m in self.public:
             if m.name == '__init__':
                 continue
+            if m.name.startswith('_') and not m.name.startswith('__'):
+                continue        # private helpers are analysed through their callers (Weaver methods are inlined)
             self.methods[m.name] = self.evaluate(m)
         init = self.cls.methods.get('__init__')
         if init is None:
